@@ -1479,7 +1479,56 @@ func runRaw() {
 	}
 }
 
+// keyTagCollision: the key tag is a 16-bit checksum, not an identifier: two DNSKEYs with the same owner,
+// algorithm and key tag but different key material are different keys, in whatever order they are used.
+// The second key is made from a real one by swapping two aligned 16-bit words of the modulus, which keeps
+// the Appendix B checksum.
+func keyTagCollision() {
+	rr, err := dns.NewRR(RSA4096Pub8)
+	if err != nil {
+		return
+	}
+	a := rr.(*dns.DNSKEY)
+	priv, err := a.NewPrivateKey(RSA4096Priv8)
+	if err != nil {
+		return
+	}
+	raw, err := base64.StdEncoding.DecodeString(a.PublicKey)
+	if err != nil || len(raw) < 200 {
+		return
+	}
+	b := dns.Copy(a).(*dns.DNSKEY)
+	for i := 100; i+3 < len(raw); i += 2 {
+		if raw[i] != raw[i+2] || raw[i+1] != raw[i+3] {
+			alt := append([]byte{}, raw...)
+			alt[i], alt[i+1], alt[i+2], alt[i+3] = raw[i+2], raw[i+3], raw[i], raw[i+1]
+			b.PublicKey = base64.StdEncoding.EncodeToString(alt)
+			break
+		}
+	}
+	if b.PublicKey == a.PublicKey || b.KeyTag() != a.KeyTag() {
+		st["keytag_collision_not_built"]++
+		return
+	}
+	rrset := []dns.RR{&dns.A{Hdr: dns.RR_Header{Name: "www.big.example.", Rrtype: dns.TypeA, Class: 1, Ttl: 60}, A: []byte{192, 0, 2, 1}}}
+	sig := &dns.RRSIG{KeyTag: a.KeyTag(), SignerName: a.Hdr.Name, Algorithm: a.Algorithm, Inception: 1700000000, Expiration: 1800000000}
+	if err := sig.Sign(priv.(crypto.Signer), rrset); err != nil {
+		return
+	}
+	in := map[string]string{"key_a": a.String(), "key_b": b.String()}
+	for round := 0; round < 2; round++ { // A then B, and again (whatever an earlier call may have remembered)
+		st["keytag_collision_checked"]++
+		if err := sig.Verify(a, rrset); err != nil {
+			Viol("C17/keytag-collision/own-key-rejected", "a signature does not verify with the key that made it once a second key with the same tag exists: "+err.Error(), in)
+		}
+		if err := sig.Verify(b, rrset); err == nil {
+			Viol("C17/keytag-collision/other-key-accepted", "a signature verifies with a different key that has the same owner, algorithm and key tag", in)
+		}
+	}
+}
+
 func runC17(r *Rng, tier string, n int) {
+	keyTagCollision()
 	nk, nds, nh, nn3, nv, nrsa := 400, 500, 420, 60, 1500, 20
 	if tier == "thorough" {
 		nk, nds, nh, nn3, nv, nrsa = 20000, 20000, 8000, 3000, 200000, 200
